@@ -43,8 +43,8 @@ func init() {
 			Run: func(P *Program, R *Report) { inPlaceDisciplineRule(P, R, "C14.h", "gabi.ProofP", "gabi.ProofPCommitment", "gabi.KeyshareCommitmentRequest", "gabi.KeyshareResponseRequest") }},
 		Rule{ID: "C14.f", Explain: "BuildDistributedProofList: a ProofP list of the wrong length is an error; every builder's proof is created with the given challenge and merged with its ProofP when one is present.",
 			Run: func(P *Program, R *Report) { buildDistributedRule(P, R) }},
-		Rule{ID: "C14.j", Explain: "no failure is dropped in the keyshare protocol functions (keyshare.go): a failed hash of the commitments, a missing key or a failed commitment ends the call (same rule as C08.g: the error a call returns has a use - a nil test or a return - before it is overwritten, shadowed or left behind).",
-			Run: func(P *Program, R *Report) { errorResultsUsedRule(P, R, "C14.j", inFiles(P, "keyshare.go"), nil, 3) }},
+		Rule{ID: "C14.j", Explain: "no failure is dropped in the keyshare protocol functions and the proof-list builders they drive (keyshare.go, prooflist.go): a failed hash of the commitments, a missing key or a failed commitment ends the call (same rule as C08.g: the error a call returns has a use - a nil test or a return - before it is overwritten, shadowed or left behind).",
+			Run: func(P *Program, R *Report) { errorResultsUsedRule(P, R, "C14.j", inFiles(P, "keyshare.go", "prooflist.go"), nil, 3) }},
 	)
 }
 
